@@ -102,7 +102,12 @@ def r7_2(ctx):
               "the body line flows through %s" % ch)
     idx = peel(o.operand(t["args"][2]))
     ctx.check(idx.kind == "field" and idx.a == "0", "body-index", f.loc(bb), "the line index handed over is the enumerate index of that line")
-    # LineParser::add_testcase_body
+    line_parser_rules(ctx)
+
+
+def line_parser_rules(ctx):
+    """shared by C06 (Markdown) and C07 (Cram): how LineParser::add_testcase_body classifies and stores a body line"""
+    prog = ctx.prog
     lp = prog.fn("LineParser::add_testcase_body")
     ol = Origins(lp)
     pushes = [(pb, pt) for pb, pt in lp.calls() if mname(pt) == "Vec::push"]
@@ -115,8 +120,10 @@ def r7_2(ctx):
             ch = chain_to(arg, lambda n: n.kind == "arg" and n.a == 2) or []
             ch = [c for c in ch if c not in ("Into::into", "From::from", "ToString::to_string", "ToOwned::to_owned")]
             pre = [const_str_of(prog, lp, n.kids[1]) for n in arg.walk() if n.kind == "call" and method_name(n.a) == "str::strip_prefix"]
-            ctx.check(ch == ["str::strip_prefix"] and pre and pre[0] in ("$ ", "> "), "command-verbatim#%d" % n_cmd, lp.loc(pb),
-                      "a command line is stored as written after `%s`" % (pre[0] if pre else "?"), "a command line flows through %s" % ch)
+            ctx.check(ch == ["str::strip_prefix"] and len(pre) == 1 and pre[0] in ("$ ", "> "), "command-verbatim#%d" % n_cmd, lp.loc(pb),
+                      "a command line is stored as written after the exact prefix `%s`" % (pre[0] if pre else "?"),
+                      "a command / continuation line is recognised or stored through %s with prefixes %s (documented: exactly `$ ` and `> `): output lines that merely "
+                      "start with `>` are swallowed into the shell expression, or command text is altered" % (ch, pre))
         elif tgt.endswith("expectations"):
             ch = chain_to(arg, lambda n: n.kind == "arg" and n.a == 2) or []
             ctx.check("ExpectationMaker::parse" in ch and not [c for c in ch if c in REWRITE], "expectation-verbatim", lp.loc(pb),
